@@ -78,7 +78,7 @@ pub const OSC: &str = "\u{009D}";
 pub const RI: &str = ascii!(4 / 13);
 
 /// String Terminator (01001_1100) - Terminates a string sequence
-pub const ST: &str = ascii!(5 / 12);
+pub const ST: &str = "\u{009C}";
 
 // CSI escape sequences
 pub const ICH: &str = ascii!(4 / 0);
@@ -117,7 +117,7 @@ pub const RIS: &str = ascii!(6 / 3);
 
 pub const BASIC: &[&str; 9] = &[BEL, BS, HT, LF, VT, FF, CR, SO, SI];
 pub const ALLOWED_IN_CSI: &[&str; 7] = &[BEL, BS, HT, LF, VT, FF, CR];
-pub const ST_C0: &str = "\u{001B}\u{009C}";
+pub const ST_C0: &str = "\u{001B}\\";
 pub const ST_C1: &str = ST;
 pub const OSC_TERMINATORS: &[&str; 3] = &[BEL, ST_C0, ST_C1];
 
